@@ -150,8 +150,8 @@ func extractSinglePart(re *syntax.Regexp) *charClassPart {
 	runes := charClass.Rune
 	for i := 0; i < len(runes); i += 2 {
 		lo, hi := runes[i], runes[i+1]
-		// Only support ASCII for now
-		if lo > 255 || hi > 255 {
+		// Only support ASCII for now: runes above 127 are multi-byte in UTF-8
+		if lo > 127 || hi > 127 {
 			return nil
 		}
 		for r := lo; r <= hi; r++ {
@@ -283,11 +283,18 @@ func isValidCompositePart(re *syntax.Regexp) bool {
 		if len(re.Sub) != 1 {
 			return false
 		}
+		// Lazy quantifiers have different match semantics (the searcher is greedy)
+		if re.Flags&syntax.NonGreedy != 0 {
+			return false
+		}
 		return re.Sub[0].Op == syntax.OpCharClass
 
 	case syntax.OpRepeat:
 		// Must have exactly one sub which is a char class
 		if len(re.Sub) != 1 {
+			return false
+		}
+		if re.Flags&syntax.NonGreedy != 0 {
 			return false
 		}
 		return re.Sub[0].Op == syntax.OpCharClass
